@@ -43,8 +43,9 @@ pub(super) enum CompiledSiblingRule {
     Directed {
         /// Original directory scope string from config (for violation messages).
         dir_scope: String,
-        /// Pre-compiled matcher for directory (parent of files).
-        dir_matcher: GlobMatcher,
+        /// Index of the declaring `[[structure.rules]]` entry: the rule applies to a directory
+        /// only when that entry is the last declared one whose scope matches it.
+        rule_index: usize,
         /// Pre-compiled matcher for files that trigger the rule.
         file_matcher: GlobMatcher,
         /// Templates for deriving sibling filename(s), e.g., `"{stem}.test.tsx"`.
@@ -60,8 +61,9 @@ pub(super) enum CompiledSiblingRule {
     Group {
         /// Original directory scope string from config (for violation messages).
         dir_scope: String,
-        /// Pre-compiled matcher for directory (parent of files).
-        dir_matcher: GlobMatcher,
+        /// Index of the declaring `[[structure.rules]]` entry: the rule applies to a directory
+        /// only when that entry is the last declared one whose scope matches it.
+        rule_index: usize,
         /// Patterns that form an atomic set, e.g., `["{stem}.tsx", "{stem}.test.tsx"]`.
         /// Each pattern must contain `{stem}` for stem extraction and expansion.
         group_patterns: Vec<String>,
